@@ -1,0 +1,19 @@
+//go:build verif
+
+package list
+
+// Abstract view of a Set: the membership predicate Mem.
+
+//@ ghost field (Set) Mem map[string]bool
+
+//@ method (Set).Put
+//@ assigns self.Mem
+//@ ensures [put] self.Mem == store(old(self.Mem), s, true)
+
+//@ method (Set).Remove
+//@ assigns self.Mem
+//@ ensures [remove] self.Mem == store(old(self.Mem), s, false)
+
+//@ method (Set).Exists
+//@ assigns nothing
+//@ ensures [exists] ok == self.Mem[t]
